@@ -158,7 +158,7 @@ def c13_2(R):
                            where=t.where(), instance="fresh-syn=>cache-empty")
 
 
-@rule("C13.3", ["C13"], ["E3"], "a SYN that cannot be queued is answered with a RESET; no acceptor is lost",
+@rule("C13.3", ["C13", "C10"], ["E3"], "a SYN that cannot be queued is answered with a RESET; no acceptor is lost",
       "In on_syn the Some(syn) result of try_cache_syn reaches try_send_rst and the returned future is awaited (into_future); for MatchSynWithAccept::SynInvalid / Full the acceptor is stored back into "
       "next_available_acceptor in on_syn and cleanup_accept_queue.")
 def c13_3(R):
